@@ -71,6 +71,8 @@ func (m *Machine) fmtArgTyped(verb string, v Value, t types.Type) []*Term {
 		var n int64
 		if x.IsConst() {
 			n = x.SVal()
+		} else if m.fmtOpaqueInts {
+			return lit("<int>")
 		} else {
 			n = m.concretizeInt(sextOrZext(x, signed), "fmt integer argument", m.cfgInt("maxFmtForks", 16))
 		}
@@ -255,6 +257,9 @@ func init() {
 		return s, true
 	})
 	reg("fmt.Errorf", func(m *Machine, th *Thread, fn *ssa.Function, a []Value) (Value, bool) {
+		// error texts are never the subject of a property: symbolic integers are rendered opaquely
+		m.fmtOpaqueInts = true
+		defer func() { m.fmtOpaqueInts = false }()
 		s, w := m.sprintf(argStr(m, a[0]), m.sliceElems(a[1]))
 		if w != nil {
 			return m.newWrapError(s, w), true
